@@ -264,4 +264,51 @@ theorem eq_survives_merge {s s' : Snap} {cf ct ct' : SClass} {N : SlotMap} (hok 
   have hN' : IsBij ct'.slots cf.slots N := by rw [hslots]; exact hN
   exact gen_conj hN' hvf hgens hgen
 
+/-- a generated subgroup only grows with its generators -/
+theorem gen_mono {Ω : List Nat} {gs gs' : List Perm} (hsub : ∀ g ∈ gs, Gen Ω gs' g) {p : Perm} (h : Gen Ω gs p) :
+    Gen Ω gs' p := by
+  induction h with
+  | one => exact .one
+  | gen hg => exact hsub _ hg
+  | mul _ _ iha ihb => exact .mul iha ihb
+  | inv _ ih => exact .inv ih
+
+/-- `find` of an invocation that does not resolve to the absorbed class is untouched by the merge write -/
+theorem find_unchanged_by_write {s s' : Snap} {i : Nat} {old e : AppId} (hold : s.uf[i]? = some old) (hlead : old.id = i)
+    (huf : s'.uf = s.uf.set i e) {a b : AppId} (ha : find s a = some b) (hne : b.id ≠ i) : find s' a = some b := by
+  unfold find at ha ⊢
+  rw [ufGet_eq_L] at ha ⊢
+  cases hr : ufGetL s.uf (s.uf.length + 1) a.id with
+  | none => rw [hr] at ha; simp at ha
+  | some r =>
+    rw [hr] at ha
+    simp only [Option.map_some, Option.some.injEq] at ha
+    have hri : r.id ≠ i := by rw [← ha] at hne; exact hne
+    have := set_unchanged (e := e) hold hlead (s.uf.length + 1) a.id r hr hri
+    rw [huf]
+    simp only [List.length_set]
+    rw [this]
+    simp [ha]
+
+/-- **the survivor's own equalities survive the merge too**: its slots stay, its canonical forms stay, its group only grows -/
+theorem eq_survives_merge_target {s s' : Snap} {ct ct' : SClass} {i : Nat} {old e : AppId}
+    (hclst : cls s ct.id = some ct) (hvt : Valid ct.slots ct.gens)
+    (hold : s.uf[i]? = some old) (hlead : old.id = i) (hne : ct.id ≠ i)
+    (huf : s'.uf = s.uf.set i e)
+    (hcls' : cls s' ct.id = some ct') (hid : ct'.id = ct.id) (hslots : ct'.slots = ct.slots)
+    (hvt' : Valid ct'.slots ct'.gens) (hgens : ∀ g ∈ ct.gens, Gen ct'.slots ct'.gens g)
+    {a b : AppId} {A B : SlotMap} (ha : find s a = some ⟨ct.id, A⟩) (hb : find s b = some ⟨ct.id, B⟩)
+    (hA : IsEmb ct.slots A) (hB : IsEmb ct.slots B) (h : eq s a b = some true) : eq s' a b = some true := by
+  obtain ⟨hvals, hgen⟩ := (eq_true_iff hclst hvt ha hb hA hB).mp h
+  have ha' := find_unchanged_by_write hold hlead huf ha hne
+  have hb' := find_unchanged_by_write hold hlead huf hb hne
+  rw [← hid] at ha' hb'
+  have hcls'' : cls s' ct'.id = some ct' := by rw [hid]; exact hcls'
+  have hA' : IsEmb ct'.slots A := by rw [hslots]; exact hA
+  have hB' : IsEmb ct'.slots B := by rw [hslots]; exact hB
+  rw [eq_true_iff hcls'' hvt' ha' hb' hA' hB']
+  refine ⟨hvals, ?_⟩
+  rw [hslots] at hgens ⊢
+  exact gen_mono hgens hgen
+
 end SV.Snap
